@@ -296,24 +296,80 @@ def rule_batching(ctx):
             ctx.ob(f"{c.name}: the empty chunk after the last delimiter is dropped (and nothing else)", okt, "chunk selection changed", u.loc())
         else:
             ctx.ob(f"{c.name}: binary serializer", binary is True, "binary serializer must report BINARY = True", c.loc())
+            unpacks = [x for x in calls_in(u.node) if call_name(x) in ("struct.unpack", "struct.unpack_from")]
             okp = len(packs) == 1 and len(unpacks) == 1 and isinstance(packs[0].args[0], ast.Constant) and isinstance(unpacks[0].args[0], ast.Constant) \
                 and packs[0].args[0].value == unpacks[0].args[0].value
             ctx.ob(f"{c.name}: batch length prefix packed and unpacked with the same format", okp,
                    f"pack {[norm.text(x.args[0]) for x in packs]} / unpack {[norm.text(x.args[0]) for x in unpacks]}", s.loc())
             if okp:
                 w = struct.calcsize(packs[0].args[0].value)
-                sl = unpacks[0].args[1]
-                oks = isinstance(sl, ast.Subscript) and isinstance(sl.slice, ast.Slice) and norm.text(sl.slice.upper) == f"{norm.text(sl.slice.lower)} + {w}"
-                ctx.ob(f"{c.name}: prefix slice is {w} octets wide", oks, f"slice {norm.text(sl)}", u.loc())
                 ctx.ob(f"{c.name}: prefix carries len(payload)", norm.text(packs[0].args[1]).startswith("len("), f"packs {norm.text(packs[0].args[1])}", s.loc())
-                # advance: i = i + 4 + l ; final i != N check
-                adv = [x for x in walk_no_defs(u.node) if isinstance(x, ast.Assign) and norm.text(x.targets[0]) == "i" and not isinstance(x.value, ast.Constant)]
-                oka = len(adv) == 1 and norm.text(adv[0].value).replace(" ", "") in (f"i+{w}+l", f"i+l+{w}")
-                ctx.ob(f"{c.name}: cursor advances by prefix + payload length", oka, f"i = {[norm.text(x.value) for x in adv]}", u.loc())
-                fin = [x for x in walk_no_defs(u.node) if isinstance(x, ast.If) and norm.atoms(x.test, True) == [("eq", "N", ("e", "i"), False)] or
-                       isinstance(x, ast.If) and norm.atoms(x.test, True) == [("eq", "i", ("e", "N"), False)]]
-                ctx.ob(f"{c.name}: trailing garbage after the last batch element is an error", len(fin) == 1 and any(isinstance(y, ast.Raise) for y in fin[0].body),
-                       "final `i != N` check missing", u.loc())
+                _batch_loop(ctx, c, u, w)
+
+
+class _Bad(Exception):
+    pass
+
+
+def _batch_loop(ctx, c, u, w):
+    """Cell-wise evaluation of the batched branch of unserialize() on batches of records [prefix(w) + body(L_k)]: every record's
+    body reaches the decoder exactly once, in order; truncated input and trailing garbage are errors."""
+    from ..core.tiny import Tiny, Buf
+    branch = [x for x in walk_no_defs(u.node) if isinstance(x, ast.If) and norm.text(x.test) == "self._batched"]
+    ctx.require(len(branch) == 1, f"{c.name}.unserialize: `if self._batched` branch not found")
+    body = branch[0].body
+    pay = u.params()[1]
+    problems = []
+    cases = [[0], [3], [0, 2], [5, 1, 0], [2, 2], [1, 4, 3]]
+    try:
+        for lens in cases:
+            for extra in (0, 2, -1):
+                starts, pos = [], 0
+                for L in lens:
+                    starts.append(pos)
+                    pos += w + L
+                N = pos + extra if extra >= 0 else pos - 1
+                if N < 0:
+                    continue
+
+                def length_at(off, lens=lens, starts=starts):
+                    if off in starts:
+                        return lens[starts.index(off)]
+                    return 1000  # garbage read as a length: larger than anything available
+
+                def unpack(fmt, buf):
+                    if not isinstance(buf, Buf) or len(buf) != w:
+                        raise _Bad(f"length prefix read from {buf}")
+                    return (length_at(buf.lo),)
+
+                def unpack_from(fmt, buf, off=0):
+                    if not isinstance(buf, Buf) or buf.lo != 0:
+                        raise _Bad(f"unpack_from on {buf}")
+                    return (length_at(off),)
+                decoded = []
+
+                def default(fname, args):
+                    if len(args) == 1 and isinstance(args[0], Buf):
+                        decoded.append(args[0])
+                        return ("msg", args[0].lo)
+                    raise AnalysisError(f"call {fname}")
+                t = Tiny({pay: Buf(0, N), "self._batched": True}, calls={"struct.unpack": unpack, "struct.unpack_from": unpack_from}, default_call=default)
+                try:
+                    r = t.run(body)
+                except _Bad as e:
+                    problems.append(f"record lengths {lens}{' + %d trailing octets' % extra if extra > 0 else ' minus 1 octet' if extra < 0 else ''}: {e}")
+                    continue
+                want = [Buf(a + w, a + w + L) for a, L in zip(starts, lens)]
+                if extra == 0:
+                    if r[0] != "return" or decoded != want or not isinstance(r[1], list) or len(r[1]) != len(lens):
+                        problems.append(f"record lengths {lens}: decoder fed {decoded} (expected {want}), outcome {r[0]}")
+                else:
+                    if r[0] != "raise":
+                        problems.append(f"record lengths {lens} {'with trailing garbage' if extra > 0 else 'truncated by one octet'}: accepted ({r[0]}), decoder fed {decoded}")
+        ctx.ob(f"{c.name}: batched unserialize hands every record body to the decoder once, in order, and refuses truncated / trailing octets [{len(cases) * 3} batches]",
+               not problems, "; ".join(problems[:2]), u.loc(branch[0]))
+    except AnalysisError as e:
+        raise AnalysisError(f"[C03.3-batching-codec-agreement] {c.name}.unserialize batched branch outside the modelled subset: {e}")
 
 
 def rule_binary_flag(ctx):
